@@ -152,6 +152,7 @@ class Runner:
             if new is None:
                 return
             p.write_text(new)
+            self.last_edited = p
             self.log.append(Step(kind, page=rel(self.root, p)).to_json())
         elif kind == "move_note":
             if len(pages) < 2:
@@ -195,6 +196,10 @@ class Runner:
             self.log.append(Step(kind, day=self.day).to_json())
         elif kind == "reindex":
             self.reindex(None)
+        elif kind == "reindex_last_edited":
+            le = getattr(self, "last_edited", None)
+            if le is not None and le.exists():
+                self.reindex([le])
         elif kind == "reindex_paths":
             allp = self.pages()
             if not allp:
